@@ -29,6 +29,8 @@ def values_for(u, t):
 def task(item):
     if item[0] == 'namecase':
         return rtbase.name_case_task(['wire'])
+    if item[0] == 'history':
+        return rtbase.history_task(task, item, TIER[0])
     pos, i = item
     u = rtbase.universe(TIER[0])
     t = u.ir_type(pos, i)
@@ -86,6 +88,9 @@ def run(tier, seed):
         r.sample({'position': it[0], 'shape': u.shapes[it[1]], 'values': [rt.show(v) for v in vs[:3]],
                   'reference_encoding': [rt.ref_encode(u.api, t, v) for v in vs[:3]]})
     r.run_tasks(task, items, budget=120)
+    hist = rtbase.history_items(tier)
+    r.bounds['history_pairs'] = len(hist)
+    r.run_tasks(task, hist, budget=240, order_base=len(items), fresh=True)
     r.assumptions = ['reference encoder written from docs/json_serializer.rst, driven by the stone.ir description (mc/rt.py)',
                      'key order of JSON objects is not compared']
     r.finish('every type shape (all expressions up to the nesting bound over primitives with boundary parameters, user types of every '
@@ -100,6 +105,8 @@ def replay(rep):
     if shape not in u.shapes:
         print('shape not in universe')
         return 2
+    if rep['inputs'].get('history') in u.shapes:
+        task(('alias', u.shapes.index(rep['inputs']['history'])))
     out = task((pos, u.shapes.index(shape)))
     if out['viol']:
         print('VIOLATION property=%s replay=replayed' % PROP)
